@@ -505,7 +505,9 @@ var foreignUnsafe = map[string]bool{
 }
 
 // methods that only read the object
-var foreignReadOnly = map[string]bool{"Len": true, "String": true, "Bytes": true, "Cap": true, "Size": true, "Buffered": true, "Available": true, "Front": true, "Back": true}
+var foreignReadOnly = map[string]bool{"Len": true, "String": true, "Bytes": true, "Cap": true, "Size": true, "Buffered": true, "Available": true, "Front": true, "Back": true,
+	// math/big values read concurrently (shared constants)
+	"Cmp": true, "CmpAbs": true, "Sign": true, "Int64": true, "Uint64": true, "IsInt64": true, "IsUint64": true, "BitLen": true, "Bit": true, "Text": true, "Float64": true, "IsInt": true, "ProbablyPrime": false}
 
 func (fc *fileCtx) rewriteForeignCalls() {
 	pkgName := fc.file.Name.Name
